@@ -219,6 +219,7 @@ Example C02_adm_example :
 Proof. vm_compute. split; reflexivity. Qed.
 
 (* ===== BasicEventElement: direction / max_interval / last_update ========================== *)
+(* the three setter conditions are gen.Gen_BeeChecks (translated; `is not None` and truthiness kept apart) *)
 Theorem C02_bee_ctor : forall d u m,
   match bctor d u m with
   | (Some s, None) => wf_bee s /\ s = mkBee d m u
@@ -233,10 +234,15 @@ Theorem C02_bee_reject_unchanged : forall s p s' e, wf_bee s -> bstep s p = (s',
 Proof. exact bstep_reject_unchanged. Qed.
 Theorem C02_bee_history : forall ops s, wf_bee s -> wf_bee (brun s ops).
 Proof. exact brun_wf. Qed.
+(* a zero-length Duration is falsy but present (PFalsy): it is refused for direction = input
+   exactly like a non-zero one, through the constructor and both setters *)
 Example C02_bee_example :
-  brun (mkBee false true UUtc) [SetDirection true; SetMaxInterval false; SetDirection true; SetMaxInterval true;
-                                SetLastUpdate UOther] = mkBee true false UUtc.
-Proof. vm_compute. reflexivity. Qed.
+  brun (mkBee false PTruthy UUtc) [SetDirection true; SetMaxInterval PNone; SetDirection true; SetMaxInterval PTruthy;
+                                   SetMaxInterval PFalsy; SetLastUpdate UOther] = mkBee true PNone UUtc
+  /\ bstep (mkBee false PFalsy UNone) (SetDirection true) = (mkBee false PFalsy UNone, Some EValue)
+  /\ bctor true UNone PFalsy = (None, Some EValue)
+  /\ bctor false UUtc PFalsy = (Some (mkBee false PFalsy UUtc), None).
+Proof. vm_compute. repeat split; reflexivity. Qed.
 
 (* ===== category: NameType, AASd-090 (data elements), AASd-100 =============================== *)
 Theorem C02_category_accept_wf : forall k a, set_category k a = None -> wf_category k a.
